@@ -863,7 +863,7 @@ package zapcore
 //@ typeinv zapcore.optionFunc f: f != nil
 
 //@ func (zapcore.optionFunc).apply
-//@   props C11 C19
+//@   props C11 C19 C09
 //@   refines zapcore.SamplerOption.apply
 //@   flags trust-callees-nopanic
 //@   requires s != nil && unpublished(s)
@@ -884,7 +884,7 @@ package zapcore
 //@   ensures result != nil
 
 //@ func zapcore.SamplerHook$1
-//@   props C11 C19
+//@   props C11 C19 C09
 //@   refines callback:(zapcore.optionFunc).apply.f
 //@   flags nopanic
 //@   requires s != nil && unpublished(s)
@@ -986,3 +986,13 @@ package zapcore
 //@   requires d != nil && d.originalCore != nil && (once(&d.Once) ==> d.core != nil)
 //@   track SY = invoke zapcore.Core.Sync
 //@   ensures #SY == 1 && result == SY.ret0[0]
+
+// Cores and sink wrappers shared between goroutines are never written after construction (C09):
+// every store to one of their fields needs the object to be unpublished.
+//@ immutable zapcore.ioCore props C09
+//@ immutable zapcore.sampler props C09
+//@ immutable zapcore.hooked props C09
+//@ immutable zapcore.levelFilterCore props C09
+//@ immutable zapcore.counters props C09
+//@ immutable zapcore.writerWrapper props C09
+//@ immutable zapcore.multiWriteSyncer props C09
